@@ -157,10 +157,12 @@ def check_record(rec, nodes, stats, wall_clock=False, own_nonce=None):
 
 # ---------------------------------------------------------------- workload
 def plan(tier, seed):
-    n = 48 if tier == "quick" else 800
+    n = 40 if tier == "quick" else 800
     cases = []
     for i in range(n):
         cases.append(dict(name=f"sim-{i}", kind="sim", spec_seed=seed * 100003 + i, steps=14 if tier == "quick" else 25, timeout=240))
+    for i in range(10 if tier == "quick" else 150):
+        cases.append(dict(name=f"tie-{i}", kind="tie", spec_seed=seed * 100003 + 70000 + i, steps=14, timeout=240))
     if tier == "thorough":
         for i in range(60):
             cases.append(dict(name=f"wall-{i}", kind="wall", spec_seed=seed * 100003 + 50000 + i, timeout=240))
@@ -178,6 +180,8 @@ def gen_spec(case):
         for n in spec["nodes"]:
             n["rate"] = max(n["rate"], 13)
         return spec
+    if case["kind"] == "tie":  # zero delays + commensurate rates + many buffered / skipped non-blocking connections: exact arrival/start ties
+        return S.rand_spec(case["spec_seed"], zero_bias=1.0, p_buffer=0.6, p_fwd_skip=0.4, allow_blocking=rnd.random() < 0.3, n_max=4)
     zb = 0.25 if rnd.random() < 0.5 else 0.0
     return S.rand_spec(case["spec_seed"], zero_bias=zb)
 
@@ -214,6 +218,10 @@ def run_case(case, checker=None, pid="C03", nontrivial=None, spec_fn=None):
         except D.Stall as e:
             items.append(dict(status="inconclusive", key=f"{dg}/{ep}", nontrivial=False, note=f"stall outside G_live={not S.in_live(spec)}: {e}"))
             counters["stalls"] = counters.get("stalls", 0) + 1
+            break
+        except (ValueError, NotImplementedError) as e:  # explicit refusal of the configuration by AsyncGraph.start (e.g. advance without blocking inputs)
+            items.append(dict(status="rejected", key=f"{dg}/{ep}", nontrivial=False, note=f"refused: {type(e).__name__}: {e}"[:200]))
+            counters["refused_by_start"] = counters.get("refused_by_start", 0) + 1
             break
         except TypeError as e:  # get_record() on a node with zero steps / connection with zero messages (DESIGN 5.3)
             items.append(dict(status="rejected", key=f"{dg}/{ep}", nontrivial=False, note=f"empty record: {e}"[:160]))
